@@ -25,6 +25,7 @@ class Net(object):
         self.busy  = False
         self.quiet = True
         self.proxy_down = False
+        self.errors = []
     def subscribe(self, url, cb):
         self.subs.setdefault(url, []).append(cb)
     def unsubscribe(self, url, cb):
@@ -45,7 +46,12 @@ class Net(object):
             if self.hops > limit:
                 return False
             for cb in self.subs.get(url, []):
-                cb(topic, copy.deepcopy(msg))
+                # (the listener thread of a real subscriber logs an exception of its callback and goes on: the message is
+                #  lost for that subscriber, nothing is raised anywhere)
+                try:
+                    cb(topic, copy.deepcopy(msg))
+                except Exception as e:
+                    self.errors.append('%s: %s' % (url, type(e).__name__))
         return True
 
 
@@ -465,7 +471,14 @@ def run(ctx):
                     for fwd in (None, False, True):
                         m = {'origin': origin, 'fwd': fwd, 'body': 5}
                         del captured[:]
-                        cb('A', to_msg(m))
+                        try:
+                            cb('A', to_msg(m))
+                        except Exception as e:
+                            # (swallowed by the listener: the message is not forwarded)
+                            del captured[:]
+                            ctx.fail('forwarder:closure-raises-on-a-message', 'module %s, %s, message %s: %s' % (mod_name(module),
+                                     'from the proxy' if from_proxy else 'to the proxy', m, type(e).__name__),
+                                     {'closure': {'module': module, 'from_proxy': from_proxy, 'msg': m}})
                         op = {'op': 'fwd', 'module': module, 'from_proxy': from_proxy, 'msg': m}
                         ops.append(op)
                         impl.append(from_msg(captured[0]) if captured else None)
@@ -557,7 +570,38 @@ def replay_join(ctx, data):
     return not bad
 
 
+def replay_closure(ctx, data):
+    rp = rpload.load()
+    import radical.utils as ru
+    i = data['input']['closure']
+    captured = []
+    class Pub(object):
+        def __init__(self, channel, url=None, **kw): pass
+        def put(self, topic, msg): captured.append(copy.deepcopy(msg))
+    class Sub(object):
+        def __init__(self, channel, topic=None, cb=None, url=None, **kw): self.cb = cb
+    old = (ru.zmq.Publisher, ru.zmq.Subscriber)
+    try:
+        ru.zmq.Publisher, ru.zmq.Subscriber = Pub, Sub
+        sess = object.__new__(rp.Session)
+        sess._module, sess._log, sess._prof = mod_name(i['module']), rpload.NullLog(), rpload.NullLog()
+        sess._to_stop = []
+        sess._cfg = ru.Config(from_dict={'path': '.'})
+        sess._reg = {'bridges.a.addr_sub': 'x', 'bridges.b.addr_pub': 'y'}
+        sess.crosswire_pubsub('A', 'B', i['from_proxy'])
+        try:
+            sess._to_stop[0].cb('A', to_msg(i['msg']))
+        except Exception as e:
+            print('the closure raised', repr(e)); return False
+    finally:
+        ru.zmq.Publisher, ru.zmq.Subscriber = old
+    print('forwarded:', captured)
+    return True
+
+
 def replay(ctx, data):
+    if 'closure' in data['input']:
+        return replay_closure(ctx, data)
     if 'join' in data['input']:
         return replay_join(ctx, data)
     rp = rpload.load()
